@@ -19,8 +19,10 @@ import (
 
 	"github.com/bandprotocol/chain/v3/pkg/tss"
 	bandtsstypes "github.com/bandprotocol/chain/v3/x/bandtss/types"
+	feedstypes "github.com/bandprotocol/chain/v3/x/feeds/types"
 	oracletypes "github.com/bandprotocol/chain/v3/x/oracle/types"
 	tsstypes "github.com/bandprotocol/chain/v3/x/tss/types"
+	tunneltypes "github.com/bandprotocol/chain/v3/x/tunnel/types"
 
 	"verif/harness/gen"
 	"verif/harness/pbt"
@@ -54,6 +56,7 @@ type tssCase struct {
 type tssProfile struct {
 	wDes, wReset, wReq, wSig, wSigAll, wEnd, wAct, wOracle int
 	corrupt                                                 bool
+	internal                                                bool
 }
 
 func genTSSCase(rt *rapid.T, p tssProfile) tssCase {
@@ -83,6 +86,10 @@ func genTSSCase(rt *rapid.T, p tssProfile) tssCase {
 				c.Ops = append(c.Ops, tssOp{K: "end", N: 1})
 			}
 			c.Ops = append(c.Ops, tssOp{K: "sigall", S: 7, Mask: 0xff}, tssOp{K: "end", N: 1})
+			continue
+		}
+		if p.internal && gen.Chance(rt, "internal", 1, 15) {
+			c.Ops = append(c.Ops, tssOp{K: "reqinternal", Variant: gen.OneOf(rt, "ikind", "tunnel", "transition")})
 			continue
 		}
 		k := gen.Pick(rt, "op", p.wDes, p.wReset, p.wReq, p.wSig, p.wSigAll, p.wEnd, p.wAct, p.wOracle)
@@ -150,7 +157,13 @@ type mSigning struct {
 	sameBlock bool // aggregated in the block of its expiry height
 }
 
-type tssObs struct{ c03, c05, c09, c10, c13 bool }
+type c11Want struct {
+	requester string
+	text      []byte // nil => oracle result content
+	time      int64
+}
+
+type tssObs struct{ c03, c05, c09, c10, c11, c13 bool }
 
 type tssWorld struct {
 	c       tssCase
@@ -175,6 +188,12 @@ type tssWorld struct {
 	escrow   sdk.Coins
 	expected map[string]sdk.Coins // expected balances of tracked accounts
 	seed          []byte // rolling seed of the block being observed
+	// C11: what each signing was requested for
+	sigWant       map[uint64]c11Want
+	msgSeen       map[string]uint64
+	c11Checked    int
+	c11Oracle     int
+	internalTried int
 	c09Checked    int
 	c09Choice     bool
 	// oracle source
@@ -210,7 +229,8 @@ func coinsOf(f []int64) sdk.Coins {
 
 func newTSSWorld(c tssCase, obs tssObs, v *pbt.Verdict) *tssWorld {
 	w := &tssWorld{c: c, obs: obs, v: v, queue: map[string][]string{}, registered: map[string]string{}, assigned: map[string]bool{},
-		tssActive: map[string]bool{}, signings: map[uint64]*mSigning{}, expected: map[string]sdk.Coins{}, stats: map[string]int64{}, corruptKinds: map[string]bool{}}
+		tssActive: map[string]bool{}, signings: map[uint64]*mSigning{}, expected: map[string]sdk.Coins{}, stats: map[string]int64{}, corruptKinds: map[string]bool{},
+		sigWant: map[uint64]c11Want{}, msgSeen: map[string]uint64{}}
 	w.fee = coinsOf(c.Fee)
 	w.escrow = sdk.NewCoins()
 	cfg := sim.Config{NumAccounts: c.N + 3, MintOff: true,
@@ -304,6 +324,7 @@ type builtTx struct {
 	// req
 	feeLimit sdk.Coins
 	oracleID uint64
+	text     []byte
 }
 
 func (w *tssWorld) openSignings() []uint64 {
@@ -539,7 +560,21 @@ func (w *tssWorld) run() {
 			u := w.users[op.M%len(w.users)]
 			fl := w.feeLimitFor(op.Variant)
 			text := bytes.Repeat([]byte{byte('a' + op.N%26)}, op.N)
-			block = append(block, &builtTx{op: op, sender: u.Addr.String(), feeLimit: fl, bz: w.ch.SignTx(u, tssworld.TextRequest(u.Addr, text, fl))})
+			block = append(block, &builtTx{op: op, sender: u.Addr.String(), feeLimit: fl, text: text, bz: w.ch.SignTx(u, tssworld.TextRequest(u.Addr, text, fl))})
+		case "reqinternal":
+			u := w.users[0]
+			fl := w.feeLimitFor("enough")
+			var content tsstypes.Content
+			if op.Variant == "tunnel" {
+				content = tunneltypes.NewTunnelSignatureOrder(1, []feedstypes.Price{{Status: feedstypes.PRICE_STATUS_AVAILABLE, SignalID: "S1", Price: 5, Timestamp: 1}}, 1, feedstypes.ENCODER_FIXED_POINT_ABI)
+			} else {
+				content = bandtsstypes.NewGroupTransitionSignatureOrder(w.grp.PubKey, w.ch.Time.Add(time.Hour))
+			}
+			m, merr := bandtsstypes.NewMsgRequestSignature(content, fl, u.Addr.String())
+			if merr == nil {
+				w.internalTried++
+				block = append(block, &builtTx{op: op, sender: u.Addr.String(), feeLimit: fl, bz: w.ch.SignTx(u, m)})
+			}
 		case "oreq":
 			u := w.users[0]
 			fl := w.fee.MulInt(sdkInt(int64(w.c.T))).Add(sdk.NewInt64Coin("uband", 10))
@@ -617,6 +652,7 @@ func (w *tssWorld) observe(block []*builtTx, res *sim.BlockResult) bool {
 	retriedInEnd := map[uint64]bool{}
 	succeededInEnd := map[uint64]bool{}
 
+	var curText []byte
 	handle := func(evs []abci.Event, inEnd bool, paidBy string, feeLimit sdk.Coins) {
 		for _, e := range evs {
 			switch e.Type {
@@ -711,6 +747,7 @@ func (w *tssWorld) observe(block []*builtTx, res *sim.BlockResult) bool {
 					}
 					s = &mSigning{id: sid, group: w.grp.ID, status: tsstypes.SIGNING_STATUS_WAITING, attempt: 1, attempts: map[uint64]*mAttempt{1: att}}
 					w.signings[sid] = s
+					w.sigWant[sid] = c11Want{requester: paidBy, text: curText, time: res.Time.Unix()}
 				} else {
 					if s == nil || s.status != tsstypes.SIGNING_STATUS_WAITING || attempt != s.attempt+1 || !inEnd {
 						w.fail(w.obs.c10, "C10/unexpected-retry", "retry event signing %d attempt %d (model: %+v)", sid, attempt, s)
@@ -810,12 +847,18 @@ func (w *tssWorld) observe(block []*builtTx, res *sim.BlockResult) bool {
 				w.oracleReqs = append(w.oracleReqs, w.oracleCount)
 			}
 		}
+		if b.op.K == "reqinternal" && ok {
+			w.fail(w.obs.c11, "C11/internal-content-accepted", "MsgRequestSignature with module-internal content (%s) was accepted", b.op.Variant)
+		}
 		if ok {
 			payer := ""
+			curText = nil
 			if b.op.K == "req" {
 				payer = b.sender
+				curText = b.text
 			}
 			handle(tr.Events, false, payer, b.feeLimit)
+			curText = nil
 		}
 		if b.op.K == "req" && !ok {
 			// a rejected request must not have moved anything (checked by the balance comparison below)
@@ -1020,6 +1063,10 @@ func (w *tssWorld) compareState(h int64) {
 				w.fail(w.obs.c10, "C10/owner-not-notified", "signing %d finished but the owner's mapping is still present", id)
 			}
 		}
+		if want, okw := w.sigWant[id]; okw && w.obs.c11 {
+			delete(w.sigWant, id)
+			w.checkSignedMessage(id, sg, want)
+		}
 		if s.status == tsstypes.SIGNING_STATUS_SUCCESS && w.obs.c03 {
 			if err := refVerifyGroupSig(w.grp.PubKey, sg.Message, sg.Signature); err != nil {
 				w.fail(true, "C03/published-invalid", "signing %d published signature does not verify under the group key: %v", id, err)
@@ -1092,4 +1139,59 @@ func (w *tssWorld) finish() {
 // refVerifyGroupSig is the independent verifier (math/big + decred group operations, written from the statement).
 func refVerifyGroupSig(pub tss.Point, msg []byte, sig tss.Signature) error {
 	return ref.TSSVerifyGroupSignature(pub, msg, sig)
+}
+
+
+// checkSignedMessage parses Signing.Message back (reference layout from the statement) and compares it with the
+// request and the on-chain data it was made for.
+func (w *tssWorld) checkSignedMessage(id uint64, sg tsstypes.Signing, want c11Want) {
+	w.c11Checked++
+	if prev, dup := w.msgSeen[string(sg.Message)]; dup {
+		w.fail(true, "C11/shared-message", "signings %d and %d share the signed message %x", prev, id, sg.Message)
+	}
+	w.msgSeen[string(sg.Message)] = id
+	ps, err := ref.ParseSigningMessage(sg.Message)
+	if err != nil {
+		w.fail(true, "C11/message-layout", "signing %d: %v", id, err)
+		return
+	}
+	orig := ref.EncodeDirectOriginator(w.ch.Cfg.ChainID, want.requester, "")
+	if !bytes.Equal(ps.OriginatorHash, ref.EncKeccak256(orig)) {
+		w.fail(true, "C11/originator", "signing %d: message is not bound to the direct originator (chain %q, requester %s, empty memo)", id, w.ch.Cfg.ChainID, want.requester)
+	}
+	if ps.Time != uint64(want.time) || ps.SigningID != id {
+		w.fail(true, "C11/header", "signing %d: header carries time %d id %d, request was made at %d with id %d", id, ps.Time, ps.SigningID, want.time, id)
+	}
+	route, kind, body, err := ref.SplitContent(ps.Content)
+	if err != nil {
+		w.fail(true, "C11/content-tag", "signing %d: %v", id, err)
+		return
+	}
+	if want.text != nil {
+		if route != ref.RouteTSS || kind != ref.KindText || !bytes.Equal(body, want.text) {
+			w.fail(true, "C11/text-content", "signing %d: content %s/%s %x, requested text %x", id, route, kind, body, want.text)
+		}
+		return
+	}
+	// oracle result content (proto encoder): must decode to the stored result of that request
+	if route != ref.RouteOracle || kind != ref.KindProto {
+		w.fail(true, "C11/oracle-content", "signing %d: oracle result content tagged %s/%s", id, route, kind)
+		return
+	}
+	dec, err := ref.DecodeOracleProto(body)
+	if err != nil {
+		w.fail(true, "C11/oracle-content", "signing %d: %v", id, err)
+		return
+	}
+	res, err := w.ch.App.OracleKeeper.GetResult(w.ch.Ctx(), oracletypes.RequestID(dec.RequestID))
+	if err != nil {
+		w.fail(true, "C11/oracle-content", "signing %d encodes a result of request %d that the chain does not have", id, dec.RequestID)
+		return
+	}
+	onchain := ref.OracleResult{ClientID: res.ClientID, OracleScriptID: uint64(res.OracleScriptID), Calldata: res.Calldata, AskCount: res.AskCount, MinCount: res.MinCount,
+		RequestID: uint64(res.RequestID), AnsCount: res.AnsCount, RequestTime: res.RequestTime, ResolveTime: res.ResolveTime, ResolveStatus: int32(res.ResolveStatus), Result: res.Result}
+	if !dec.Equal(onchain) {
+		w.fail(true, "C11/oracle-content", "signing %d: signed oracle result %+v differs from the stored result %+v", id, dec, onchain)
+	}
+	w.c11Oracle++
 }
